@@ -330,6 +330,9 @@ def enabled_ops(m, maxrows):
         ops.append(['add', name])
     ops.append(['add', 'None'])
     ops.append(['add', '0'])
+    ops.append(['iadd', 'self'])                       # d += x is d = d + x: a NEW table, d (and whatever shares lists with it) stays what it was
+    for name, _, _ in operand_specs(cols)[:3]:
+        ops.append(['iadd', name])
     ops.append(['radd0'])
     ops.append(['concat', ['rec', 'recs']])
     ops.append(['concat', ['self', 'empty']])
@@ -504,8 +507,8 @@ def apply_op(op, t, m):
             return ret(0 + t, m.copy())
         if o == 'concat1':
             return ret(dictable.concat(t), m.copy())
-        if o in ('add', 'concat'):
-            names = [op[1]] if o == 'add' else list(op[1])
+        if o in ('add', 'concat', 'iadd'):
+            names = [op[1]] if o in ('add', 'iadd') else list(op[1])
             specs = {nm: (mm, b) for nm, mm, b in operand_specs(sorted(m.cols))}
             objs, models = [], []
             for nm_ in names:
@@ -520,7 +523,11 @@ def apply_op(op, t, m):
                     ob = b()
                     objs.append(ob); models.append(mm)
                     extra.append((nm_, ob, mm))
-            if o == 'add':
+            if o == 'iadd':
+                import operator
+                res = operator.iadd(t, objs[0])
+                nm2 = m_concat([m, models[0]])
+            elif o == 'add':
                 res = t + objs[0]
                 nm2 = m.copy() if models[0] is None else m_concat([m, models[0]])
             else:
